@@ -276,6 +276,21 @@ def _psm(ctx, f):
     ml = mloops[0]
     augs = [s_ for s_ in ast.walk(ml) if isinstance(s_, ast.AugAssign)
             and isinstance(s_.target, ast.Name)]
+    # x = x + E is the same running sum as x += E for a number
+    plain_incs = [s_ for s_ in ast.walk(ml) if isinstance(s_, ast.Assign)
+                  and len(s_.targets) == 1
+                  and isinstance(s_.targets[0], ast.Name)
+                  and isinstance(s_.value, ast.BinOp)
+                  and isinstance(s_.value.op, ast.Add)
+                  and any(isinstance(x, ast.Name)
+                          and x.id == s_.targets[0].id
+                          for x in ast.walk(s_.value))
+                  and not any(isinstance(x, (ast.Subscript, ast.Constant))
+                              and isinstance(getattr(x, "value", None), str)
+                              for x in ast.walk(s_.value))]
+    augs = augs + [s_ for s_ in plain_incs
+                   if not any(isinstance(x, ast.Subscript)
+                              for x in ast.walk(s_.value))]
     if not augs:
         # the other sound idiom: insert from the back, positions taken as
         # they are - only valid when the modifications are visited in
@@ -389,11 +404,23 @@ def _psm(ctx, f):
                  and isinstance(x[1], str))
     texts = [x for x in mid if not (x[0] == "const"
                                     and isinstance(x[1], str))]
-    incs = [a_ for a_ in augs if a_.target.id == off
-            and isinstance(a_.op, ast.Add)]
+    def tgt_of(a_):
+        return a_.target.id if isinstance(a_, ast.AugAssign) else \
+            a_.targets[0].id
+    incs = [a_ for a_ in augs if tgt_of(a_) == off and (
+        isinstance(a_, ast.Assign) or isinstance(a_.op, ast.Add))]
     ctx.require(len(incs) == 1, f"{f.qual}: running offset update not found")
     from ..tutil import lin_with_lengths, strlen_lin
     linc = lin_with_lengths(no_uids(Tv.of(incs[0].value)))
+    if isinstance(incs[0], ast.Assign):
+        # x = x + E: the increment is the value minus x itself
+        own = [k for k, t_ in linc.terms.items()
+               if t_[0] in ("var", "rec") and t_[1] == off]
+        ctx.require(len(own) == 1 and linc.atoms.get(own[0]) == 1,
+                    f"{f.qual}: running offset update is not offset + E")
+        minus = Lin_zero()
+        minus.atoms = {own[0]: -1}
+        linc = linc + minus
     want = Lin_zero()
     for x in mid:
         want = want + strlen_lin(no_uids(x))
